@@ -65,6 +65,18 @@ def types_from_facts(facts, var: str) -> Optional[set[str]]:
     return out
 
 
+def crawl_is_exhaustive(prog: Prog, call: ast.Call, fn: Fn) -> bool:
+    """`x.recursive_crawl(T)` yields every T below x; with `recurse_into=False` it stops at each match, so a T nested inside a T is skipped."""
+    for kw in call.keywords:
+        if kw.arg == "recurse_into":
+            v = prog.try_fold(kw.value, fn.mod, fn)
+            if v is False or (isinstance(kw.value, ast.Constant) and kw.value.value is False):
+                return False
+            if v is not True and not (isinstance(kw.value, ast.Constant) and kw.value.value is True):
+                return False  # computed: cannot be assumed exhaustive
+    return True
+
+
 def _atom_facts(cond: ast.AST):
     from .cfg import atom_facts
 
@@ -184,7 +196,7 @@ class Nav:
             if isinstance(n, ast.Call) and isinstance(n.func, ast.Attribute) and n.func.attr in NAV_METHODS and isinstance(n.func.value, ast.Name):
                 for rp in self.var_paths(fn, n.func.value.id, n, params):
                     for ct in self._str_args(n, fn):
-                        self.steps.add(Step(rp + (ct,), n.func.attr == "recursive_crawl", fn.qual, n.lineno))
+                        self.steps.add(Step(rp + (ct,), n.func.attr == "recursive_crawl" and crawl_is_exhaustive(self.prog, n, fn), fn.qual, n.lineno))
             if isinstance(n, (ast.For, ast.comprehension)) and isinstance(n.target, ast.Name):
                 src = n.iter
                 recv = None
